@@ -233,11 +233,11 @@ def chunk_cases(tier, chunk):
 
 def plan(tier):
     if tier == "quick":
-        return {"exhaustive": [(5, i, 16) for i in range(16)], "streams": {"main": 3200}, "shards": 16,
+        return {"exhaustive": [(5, i, 16) for i in range(16)], "streams": {"main": 16000}, "shards": 16,
                 "exhaustive_is_complete": True,
                 "exhaustive_note": "all token trees with <= 4 nodes below the root over {a,B,?x} x all-gaps-equal, "
                                    "single-gap substitutions, upper case, single paren deletion/insertion, tails"}
-    return {"exhaustive": [(6, i, 64) for i in range(64)], "streams": {"main": 64000}, "shards": 16,
+    return {"exhaustive": [(6, i, 64) for i in range(64)], "streams": {"main": 320000}, "shards": 16,
             "exhaustive_is_complete": True,
             "exhaustive_note": "as quick with <= 5 nodes below the root"}
 
